@@ -66,6 +66,13 @@ func genMsgLen(t *rapid.T, label string) int {
 		// around block / word multiples
 		return 16*rapid.IntRange(1, 40).Draw(t, label+"_b") + rapid.IntRange(-1, 1).Draw(t, label+"_d")
 	}
+	switch rapid.IntRange(0, 19).Draw(t, label+"_big") {
+	case 0:
+		// long messages (a NAS payload container is LV-E: up to 65535 octets) around the powers of two
+		return (1 << uint(rapid.IntRange(12, 16).Draw(t, label+"_p"))) + rapid.IntRange(-17, 17).Draw(t, label+"_pd")
+	case 1:
+		return rapid.IntRange(4097, 70000).Draw(t, label+"_long")
+	}
 	return rapid.IntRange(301, 4096).Draw(t, label)
 }
 
@@ -92,9 +99,40 @@ func genC07Call(t *rapid.T, i int) c07Call {
 
 func genC07(t *rapid.T) c07Case {
 	n := rapid.IntRange(1, 6).Draw(t, "ncalls")
+	if rapid.IntRange(0, 4).Draw(t, "longer") == 0 {
+		n = rapid.IntRange(7, 16).Draw(t, "ncalls_long")
+	}
 	var c c07Case
 	for i := 0; i < n; i++ {
-		c.Calls = append(c.Calls, genC07Call(t, i))
+		call := genC07Call(t, i)
+		// "a function of the arguments only": calls that REPEAT the parameters of an earlier call of the
+		// sequence (same algorithm, key, COUNT, BEARER, DIRECTION — or only the same key / the same IV
+		// inputs) with another message of another length, in any order of lengths
+		if i > 0 && !call.Refusal {
+			l := fmt.Sprintf("c%d_", i)
+			switch rapid.IntRange(0, 5).Draw(t, l+"reuse") {
+			case 0, 1, 2:
+				p := c.Calls[rapid.IntRange(0, i-1).Draw(t, l+"reuse_of")]
+				if !p.Refusal {
+					call.Alg, call.Key, call.Count, call.Bearer, call.Dir = p.Alg, p.Key, p.Count, p.Bearer, p.Dir
+					if rapid.IntRange(0, 3).Draw(t, l+"reuse_short") != 0 {
+						call.Msg = genBytes(t, rapid.IntRange(1, 40).Draw(t, l+"reuse_len"), l+"reuse_msg")
+					}
+					if rapid.IntRange(0, 3).Draw(t, l+"reuse_otheralg") == 0 {
+						call.Alg = rapid.SampledFrom(c07Algs).Draw(t, l+"reuse_alg")
+					}
+				}
+			case 3:
+				p := c.Calls[rapid.IntRange(0, i-1).Draw(t, l+"samekey_of")]
+				call.Key = p.Key
+			case 4:
+				p := c.Calls[rapid.IntRange(0, i-1).Draw(t, l+"sameiv_of")]
+				if !p.Refusal {
+					call.Count, call.Bearer, call.Dir = p.Count, p.Bearer, p.Dir
+				}
+			}
+		}
+		c.Calls = append(c.Calls, call)
 	}
 	return c
 }
@@ -194,6 +232,20 @@ func c07Oracle(c c07Case) ev.Verdict {
 	if len(c.Calls) >= 2 {
 		v.Classes = append(v.Classes, "history>=2")
 	}
+	seen := map[string]int{}
+	for _, call := range c.Calls {
+		k := fmt.Sprintf("%s|%x|%d|%d|%d", call.Alg, call.Key, call.Count, call.Bearer, call.Dir)
+		if n, ok := seen[k]; ok && n != len(call.Msg) {
+			v.Classes = append(v.Classes, "history:same-parameters-other-length")
+		}
+		seen[k] = len(call.Msg)
+		if len(call.Msg) > 4096 {
+			v.Classes = append(v.Classes, "len>4096")
+		}
+		if len(call.Msg) > 16384 {
+			v.Classes = append(v.Classes, "len>16384")
+		}
+	}
 	return v
 }
 
@@ -221,6 +273,21 @@ func TestC07_Lengths(t *testing.T) {
 			return out
 		})
 		calls := gen.Example(int(ev.Seed()) + rep*104729)
+		if rep == 0 && ev.Shard() == 0 {
+			// long messages at the powers of two (keystream generated in blocks, block counters carrying)
+			long := rapid.Custom(func(rt *rapid.T) []c07Call {
+				var out []c07Call
+				for _, n := range []int{255, 256, 257, 4095, 4096, 4097, 4112, 8191, 8192, 8193, 16383, 16384, 16385, 16400, 32767, 32768, 32769, 65535, 65536, 65537, 70001} {
+					for _, a := range c07Algs {
+						l := fmt.Sprintf("L%s_%d_", a, n)
+						out = append(out, c07Call{Alg: a, Key: genBytes(rt, 16, l+"k"), Count: rapid.Uint32().Draw(rt, l+"c"),
+							Bearer: uint8(rapid.IntRange(0, 31).Draw(rt, l+"b")), Dir: uint8(rapid.IntRange(0, 1).Draw(rt, l+"d")), Msg: genBytes(rt, n, l+"m")})
+					}
+				}
+				return out
+			})
+			calls = append(calls, long.Example(int(ev.Seed())+7)...)
+		}
 		for _, call := range calls {
 			cs := c07Case{Calls: []c07Call{call}}
 			if !r.Each(t, cs, ev.SafeOracle(c07Oracle, cs)) {
